@@ -82,6 +82,8 @@ func (a aopts) mk() *jsonpatch.ApplyOptions {
 
 func runApply(doc, patch []byte, a aopts) applyObs {
 	var ob applyObs
+	pending("apply", kv{"flags", b2s(a.neg) + b2s(a.allow) + b2s(a.ensure) + b2s(a.esc)}, kv{"limit", fmt.Sprint(a.limit)},
+		kv{"indent", hx([]byte(a.indent))}, kv{"patch", hx(patch)}, kv{"doc", hx(doc)}, kv{"status", "crash"})
 	st := guarded(func() {
 		p, err := jsonpatch.DecodePatch(patch)
 		if err != nil {
@@ -208,6 +210,41 @@ func applyStream(cfg applyCfg, n int) {
 	}
 }
 
+// rootNullStream: patches whose earlier operations replace the whole document (by null, a scalar,
+// an empty container), followed by operations with short paths, under every option combination
+func rootNullStream(n int) {
+	paths := []string{"", "/0", "/a", "/-", "/0/a", "/-/a", "/1/0", "/a/b", "/a/0", "/a/-", "/-1", "/-1/a", "/2/b/c", "/", "//"}
+	vals := []string{"null", "1", "{}", "[]", `{"a":null}`, `[null]`, `"s"`, `{"a":{"b":1}}`, `[[1]]`}
+	for i := 0; i < n; i++ {
+		g := genOpts{depth: 1 + rng.Intn(2), scalarRoot: true}
+		doc := []byte(pick(genDoc(g), "null", " null ", "{}", "[]", "1"))
+		var ops []string
+		for j := 0; j < rng.Intn(2); j++ {
+			ops = append(ops, fmt.Sprintf(`{"op":"add","path":%s,"value":%s}`, jsonStr(pick(paths...)), pick(vals...)))
+		}
+		ops = append(ops, fmt.Sprintf(`{"op":%s,"path":"","value":%s}`, jsonStr(pick("replace", "add")), pick("null", "null", "null", "1", "{}", "[]", `"s"`)))
+		for j := 0; j < 1+rng.Intn(3); j++ {
+			k := pick("add", "add", "remove", "replace", "test", "move", "copy")
+			switch k {
+			case "move", "copy":
+				ops = append(ops, fmt.Sprintf(`{"op":%s,"from":%s,"path":%s}`, jsonStr(k), jsonStr(pick(paths...)), jsonStr(pick(paths...))))
+			case "remove":
+				ops = append(ops, fmt.Sprintf(`{"op":"remove","path":%s}`, jsonStr(pick(paths...))))
+			case "test":
+				if chance(0.3) {
+					ops = append(ops, fmt.Sprintf(`{"op":"test","path":%s}`, jsonStr(pick(paths...))))
+				} else {
+					ops = append(ops, fmt.Sprintf(`{"op":"test","path":%s,"value":%s}`, jsonStr(pick(paths...)), pick(vals...)))
+				}
+			default:
+				ops = append(ops, fmt.Sprintf(`{"op":%s,"path":%s,"value":%s}`, jsonStr(k), jsonStr(pick(paths...)), pick(vals...)))
+			}
+		}
+		a := aopts{neg: chance(0.5), allow: chance(0.5), ensure: chance(0.6), esc: chance(0.5)}
+		emitApply("apply-rootnull", doc, ops, joinOps(ops), a, false)
+	}
+}
+
 func pick64(xs ...int64) int64 { return xs[rng.Intn(len(xs))] }
 
 func emitApply(stream string, doc []byte, ops []string, patch []byte, a aopts, extra bool) {
@@ -324,12 +361,16 @@ func perturb(v interface{}) interface{} {
 	case bool:
 		return !x
 	case stdjson.Number:
+		if n, ok := nearNum[string(x)]; ok && chance(0.6) {
+			return stdjson.Number(n)
+		}
 		return stdjson.Number(string(x) + "1")
 	}
 	return nil
 }
 
 func emitEqual(a, b []byte) {
+	pending("equal", kv{"a", hx(a)}, kv{"b", hx(b)}, kv{"status", "crash"})
 	var res bool
 	st := guarded(func() { res = jsonpatch.Equal(a, b) })
 	var res2 bool
@@ -346,6 +387,7 @@ type mobs struct {
 }
 
 func runMerge(mm bool, doc, patch []byte) mobs {
+	pending("merge", kv{"mm", b2s(mm)}, kv{"doc", hx(doc)}, kv{"patch", hx(patch)}, kv{"status", "crash"})
 	var o mobs
 	st := guarded(func() {
 		var out []byte
@@ -494,6 +536,7 @@ func emitMerge3(doc, p1, p2 []byte) {
 // ---------------------------------------------------------------- CreateMergePatch
 
 func runCreate(a, b []byte) mobs {
+	pending("create", kv{"a", hx(a)}, kv{"b", hx(b)}, kv{"status", "crash"})
 	var o mobs
 	st := guarded(func() {
 		out, err := jsonpatch.CreateMergePatch(a, b)
@@ -579,6 +622,7 @@ var validOps = []string{
 var jsonTypes = []string{`null`, `true`, `1`, `"s"`, `"add"`, `"/a"`, `[]`, `{}`, `["add"]`, `{"op":"add"}`, `""`, `"ADD"`, `"Add"`, `"\u0061dd"`}
 
 func decodeCase(b []byte) {
+	pending("decode", kv{"in", hx(b)}, kv{"status", "crash"})
 	var ok bool
 	var acc []string
 	st := guarded(func() {
@@ -689,10 +733,14 @@ func rebuild(m map[string]stdjson.RawMessage, name, val, before, after string) s
 // ---------------------------------------------------------------- Valid / Compact / Indent / codec
 
 func validCase(b []byte, full bool) {
+	if full {
+		pending("valid", kv{"in", hx(b)}, kv{"status", "crash"})
+	}
 	var v bool
 	st := guarded(func() { v = ijson.Valid(b) })
 	fields := []kv{{"in", hx(b)}, {"status", st}, {"valid", b2s(v)}}
 	if full {
+		stFull := guarded(func() {
 		var cb, ib, hb bytes.Buffer
 		cerr := ijson.Compact(&cb, b)
 		ierr := ijson.Indent(&ib, b, "", "  ")
@@ -727,6 +775,10 @@ func validCase(b []byte, full bool) {
 		var aout []byte
 		st2 := guarded(func() { aout, aerr = p0.Apply(b) })
 		fields = append(fields, kv{"api", st1 + b2s(eq) + "," + b2s(derr == nil) + "," + mo.status + "," + co.status + "," + st2 + b2s(aerr == nil) + hx(aout)})
+			})
+		if stFull != "ok" {
+			fields[1] = kv{"status", stFull}
+		}
 	}
 	emit("valid", fields...)
 }
@@ -1193,10 +1245,14 @@ func main() {
 		os.Exit(2)
 	}
 	out = bufio.NewWriterSize(f, 1<<20)
+	pendingPath = *outPath + ".pending"
+	defer os.Remove(pendingPath)
 	defer func() { out.Flush(); f.Close() }()
 	switch *stream {
 	case "apply-c01":
 		applyStream(applyCfg{name: *stream, pTestOK: 0.75, kinds: allKinds, pRetry: 0.8}, *n)
+	case "apply-rootnull":
+		rootNullStream(*n)
 	case "apply-any":
 		applyStream(applyCfg{name: *stream, allow: 0.3, ensure: 0.3, limitMode: 1, odd: true, dup: true, scalar: true, pTestOK: 0.6, kinds: allKinds}, *n)
 	case "apply-fail":
